@@ -67,6 +67,12 @@ func cmdRun(args []string) {
 		ModulePath: modulePath, MaxPaths: *maxPaths, Verbose: *verbose, Known: splitSet(*known), SolverLog: *smtlog, OrderInsensitive: orderLemmas(), MaxViolations: *maxViol}
 	res := exec.Run(cfg)
 	printResult(res)
+	for i, v := range res.Violations {
+		c := v.Cex
+		c.Harness, c.Pkg, c.Repeat, c.Detail = *fn, *pkg, 512, v.Detail
+		path, _ := writeCex("/verif/cex/dev", fmt.Sprintf("%s-%d-%s.json", *fn, i, sanitizeName(v.Label)), c)
+		fmt.Println("wrote", path)
+	}
 }
 
 func splitSet(s string) map[string]bool {
